@@ -1,0 +1,137 @@
+//! Verification hooks for the multiplexer (see `crate::verif`).
+#![allow(missing_docs, clippy::missing_docs_in_private_items, unreachable_pub)]
+use std::{collections::BTreeMap, sync::Arc};
+
+use zksync_concurrency::{ctx, io, limiter};
+
+use super::{header, Config, Mux, RunError, StreamQueue};
+use crate::noise::bytes;
+
+/// (frame kind bits, stream kind bits, stream id) of a raw header.
+pub fn header_parts(raw: u16) -> (u16, u16, u16) {
+    let h = header::Header(raw);
+    (h.frame_kind().0, h.stream_kind().0, h.stream_id().0)
+}
+
+/// `Header::new(..).raw()` from raw parts (panics like `StreamId::new` when id is out of range).
+pub fn header_new(frame_kind: u16, stream_kind: u16, id: u16) -> [u8; 2] {
+    header::Header::new(
+        header::FrameKind(frame_kind),
+        header::StreamKind(stream_kind),
+        header::StreamId::new(id),
+    )
+    .raw()
+}
+
+pub fn decode_handshake(bytes: &[u8]) -> anyhow::Result<Vec<u8>> {
+    Ok(zksync_protobuf::encode(&zksync_protobuf::decode::<
+        super::handshake::Handshake,
+    >(bytes)?))
+}
+
+/// Encodes (prost field order, not canonicalised) a mux handshake from explicit capability lists.
+pub fn encode_handshake(accept: &[(u64, u32)], connect: &[(u64, u32)]) -> Vec<u8> {
+    use crate::proto::mux as proto;
+    let caps = |l: &[(u64, u32)]| {
+        l.iter()
+            .map(|(id, m)| proto::handshake::Capability {
+                id: Some(*id),
+                max_streams: Some(*m),
+            })
+            .collect()
+    };
+    prost::Message::encode_to_vec(&proto::Handshake {
+        accept: caps(accept),
+        connect: caps(connect),
+    })
+}
+
+#[derive(Clone, Debug)]
+pub struct VConfig {
+    pub read_frame_size: u64,
+    pub read_buffer_size: u64,
+    pub read_frame_count: u64,
+    pub write_frame_size: u64,
+}
+
+/// Handle to one capability's stream queue.
+#[derive(Clone)]
+pub struct VQueue(pub(crate) Arc<StreamQueue>);
+
+pub struct VStream {
+    pub read: VReadStream,
+    pub write: VWriteStream,
+}
+pub struct VReadStream(pub(crate) super::ReadStream);
+pub struct VWriteStream(pub(crate) super::WriteStream);
+
+impl VQueue {
+    pub fn new(ctx: &ctx::Ctx, max_streams: u32, rate: limiter::Rate) -> Self {
+        Self(StreamQueue::new(ctx, max_streams, rate))
+    }
+    pub async fn open(&self, ctx: &ctx::Ctx) -> ctx::OrCanceled<VStream> {
+        let s = self.0.open(ctx).await?;
+        Ok(VStream {
+            read: VReadStream(s.read),
+            write: VWriteStream(s.write),
+        })
+    }
+}
+
+impl VReadStream {
+    /// Reads up to `n` bytes (stops early only at end of stream).
+    pub async fn read_exact(&mut self, ctx: &ctx::Ctx, n: usize) -> anyhow::Result<Vec<u8>> {
+        let mut buf = bytes::Buffer::new(n);
+        self.0.read_exact(ctx, &mut buf).await?;
+        Ok(buf.as_slice().to_vec())
+    }
+}
+
+impl VWriteStream {
+    pub async fn write_all(&mut self, ctx: &ctx::Ctx, buf: &[u8]) -> anyhow::Result<()> {
+        self.0.write_all(ctx, buf).await
+    }
+    pub async fn flush(&mut self, ctx: &ctx::Ctx) -> anyhow::Result<()> {
+        self.0.flush(ctx).await
+    }
+}
+
+pub struct VMux(pub(crate) Mux);
+
+impl VMux {
+    pub fn new(cfg: VConfig, accept: Vec<(u64, VQueue)>, connect: Vec<(u64, VQueue)>) -> Self {
+        let q = |l: Vec<(u64, VQueue)>| -> BTreeMap<_, _> {
+            l.into_iter().map(|(c, q)| (c, q.0)).collect()
+        };
+        Self(Mux {
+            cfg: Arc::new(Config {
+                read_frame_size: cfg.read_frame_size,
+                read_buffer_size: cfg.read_buffer_size,
+                read_frame_count: cfg.read_frame_count,
+                write_frame_size: cfg.write_frame_size,
+            }),
+            accept: q(accept),
+            connect: q(connect),
+        })
+    }
+    pub fn verify(&self) -> anyhow::Result<()> {
+        self.0.verify()
+    }
+    /// Runs the multiplexer; the error is mapped to the name of its `RunError` variant.
+    pub async fn run<S: io::AsyncRead + io::AsyncWrite + Send>(
+        self,
+        ctx: &ctx::Ctx,
+        transport: S,
+    ) -> Result<(), (String, String)> {
+        self.0.run(ctx, transport).await.map_err(|e| {
+            let name = match &e {
+                RunError::Config(_) => "Config",
+                RunError::Canceled(_) => "Canceled",
+                RunError::Closed => "Closed",
+                RunError::Protocol(_) => "Protocol",
+                RunError::IO(_) => "IO",
+            };
+            (name.to_string(), format!("{e:#}"))
+        })
+    }
+}
